@@ -337,7 +337,7 @@ PROPS = {
                 "it; at quiescence every call must have returned (ErrNotRunning or a value), every object obtained while racing must be "
                 "done, every node done; testing/synctest fails the run if any goroutine of the bubble never finishes (leak / zombie / hang). "
                 "ctrl engine: Close/cancel after watch and list faults (mid-reconnect, blocked Watch, slow list). Non-trivial: observations with events.",
-        "trusted_base": TREE_TB + CTRL_TB,
+        "trusted_base": TREE_TB + CTRL_TB + ["API-call model KcacheModel/Api.lean written by hand from the select/request/result pattern of publisher.go, cache.go, subscription_filter.go; tied by the c12 mode's racing API probes (every call must have returned at the quiescent point)"],
         "assumptions": ["client List/Watch return once their context is cancelled", "bounds are in virtual time"],
     },
     "C09": {
